@@ -149,6 +149,13 @@ def point_sets(name):
         out.append(("cutplane-lattice", np.array([(r * np.cos(p), r * np.sin(p), z) for r in ((r1 + r2) / 2, 2 * r2, 0.01) for p in pp for z in zz + [0.0, 0.1]]), False))
         out.append(("axis-tiny", np.array([(t, u, z) for t in tiny for u in tiny[:4] for z in (0.0, 0.3, h / 2, -h / 2, ulp(h / 2, 4), 2.0)]), False))
         out.append(("far", np.array([(f, 0.3 * f, -f) for f in far] + [(0, 0, f) for f in far] + [(f, 0, 0) for f in far]), False))
+        # next to the planes of the flat side faces (and their continuation through the axis): angular offsets between one ulp of
+        # the angle and 1e-6 rad on either side, at radii / heights on, inside and outside the body
+        offs = [s_ * d for d in (1e-15, 1e-14, 1e-13, 1e-12, 1e-11, 1e-10, 1e-9, 1e-8, 1e-7, 1e-6) for s_ in (1, -1)]
+        fp = [np.deg2rad(p1), np.deg2rad(p2), np.deg2rad(p1) + np.pi, np.deg2rad(p2) - np.pi]
+        rr2 = [r2, (r1 + r2) / 2, 2 * r2, 0.01] + ([r1] if r1 > 0 else [])
+        zz2 = [h / 2, -h / 2, 0.0, 0.3 * h, 2 * h, ulp(h / 2, 16)]
+        out.append(("sideface-vicinity", np.array([(r * np.cos(p + o), r * np.sin(p + o), z) for p in fp for o in offs for r in rr2 for z in zz2]), False))
     elif base == "Sphere":
         R = 0.55 if name == "Sphere" else 0.0
         dirs = np.array([(1, 0, 0), (0, 1, 0), (0, 0, 1), (-1, 0, 0), (0.3, -0.5, 0.8), (-0.6, 0.6, 0.5)], float)
